@@ -861,7 +861,12 @@ def pncexpr(expr, ifile, verbose=0):
     vardict['datetime'] = datetime
     for fname in dir(userfuncs):
         vardict[fname] = getattr(userfuncs, fname)
-    exec('from scipy.constants import *', None, vardict)
+    # physical constants are available to expressions, but a variable of the
+    # file (G, R, c, g, h, k, ...) takes precedence over a constant
+    constdict = {}
+    exec('from scipy.constants import *', None, constdict)
+    for ck, cv in constdict.items():
+        vardict.setdefault(ck, cv)
     for k in ifile.ncattrs():
         if k not in vardict:
             vardict[k] = getattr(ifile, k)
